@@ -613,6 +613,152 @@ Definition parseBitVector (str : list ascii) : option bvs :=
   end.
 
 (* ------------------------------------------------------------------ *)
+(* remaining public interface of BitVectorState.h                      *)
+(* ------------------------------------------------------------------ *)
+
+(* head(plane) = extractNonStraddling(plane, 0, size()) *)
+Definition head (s : bvs) (p : nat) : N := extractNS s p 0 (bsize s).
+
+(* allDefinedNonStraddling(vec, start, size) =
+     !andNot(vec.extractNonStraddling(DEFINED, start, size), bitMaskRange(0, size)) *)
+Definition allDefinedNS (s : bvs) (start size : N) : bool :=
+  andNot (extractNS s DEFINED start size) (bitMaskRange 0 size) =? 0.
+
+(* clear(): empties the word vectors of every plane; m_size is NOT reset (the container is then
+   inconsistent until the next resize).  clear(); resize(n) gives n zero bits: vector::resize
+   value-initialises every word. *)
+Definition clearAll (s : bvs) : bvs := {| bsize := bsize s; planes := map (fun _ => []) (planes s) |}.
+Definition clearResize (s : bvs) (n : N) : bvs := resize (clearAll s) n.
+
+(* asBytes(plane): the first (m_size+7)/8 bytes of the plane's storage (little endian) *)
+Definition asBytes (s : bvs) (p : nat) : list N :=
+  map (getByte (plane s p)) (nrange 0 ((bsize s + 7) / 8)).
+Fixpoint bytesToN (l : list N) : N := match l with [] => 0 | b :: r => b + 256 * bytesToN r end.
+
+(* bool operator==(const DefaultBitVectorState &lhs, std::span<const std::byte> rhs)
+   None = the std::runtime_error for a wrong size.  srcWords[k] is the uint64_t read at byte
+   offset 8k of the span; for the partial last word the C++ reads up to 7 bytes past the end of
+   the span and masks them away -- modelled as reading zeros. *)
+Definition srcWord (bytes : list N) (k : N) : N :=
+  bytesToN (firstn 8 (skipn (N.to_nat (8 * k)) bytes)).
+Definition eqBytes (s : bvs) (bytes : list N) : option bool :=
+  let n := N.of_nat (length bytes) in
+  if negb (bsize s =? n * 8) then None
+  else if negb (allDefined s 0 size_max) then Some false
+  else
+    let numFullWords := n / 8 in
+    let remainingBytes := n - numFullWords * 8 in
+    let v := plane s VALUE in
+    if negb (forallb (fun k => getw v k =? srcWord bytes k) (nrange 0 numFullWords)) then Some false
+    else if 0 <? remainingBytes then
+      let difference := N.lxor (getw v numFullWords) (srcWord bytes numFullWords) in
+      let mask := N.shiftr (N.ones 64) ((8 - remainingBytes) * 8) in
+      Some (N.land difference mask =? 0)
+    else Some true.
+
+(* range(plane, offset, size): iterator over chunks of stepWidth() = min(64, end - offset) bits;
+   *it reads extract(plane, offset, stepWidth), *it = v writes insert(plane, offset, stepWidth, v).
+   iterRead accumulates the chunks read (chunk at bit position k of the result),
+   iterWrite stores chunk k of the number v. *)
+Fixpoint iterReadLoop (fuel : nat) (w : list N) (offset end_ k acc : N) : N :=
+  match fuel with
+  | O => acc
+  | S f =>
+    if negb (offset =? end_) then
+      let step := N.min 64 (end_ - offset) in
+      iterReadLoop f w (offset + step) end_ (k + step) (N.lor acc (N.shiftl (extractWP w offset step) k))
+    else acc
+  end.
+Definition iterRead (s : bvs) (p : nat) (offset size : N) : N :=
+  iterReadLoop (S (N.to_nat size)) (plane s p) offset (offset + size) 0 0.
+
+Fixpoint iterWriteLoop (fuel : nat) (w : list N) (offset end_ k v : N) : list N :=
+  match fuel with
+  | O => w
+  | S f =>
+    if negb (offset =? end_) then
+      let step := N.min 64 (end_ - offset) in
+      iterWriteLoop f (insertWP w offset step (wrap64 (N.shiftr v k))) (offset + step) end_ (k + step) v
+    else w
+  end.
+Definition iterWrite (s : bvs) (p : nat) (offset size v : N) : bvs :=
+  on_plane s p (fun w => iterWriteLoop (S (N.to_nat size)) w offset (offset + size) 0 v).
+
+(* asData(src, dst, undefinedFiller): dst[j] = (value[j] & def[j]) | (filler[j % n] & ~def[j]),
+   filler 'X' if the filler span is empty; None = HCL_DESIGNCHECK (size not a multiple of 8 bits) *)
+Definition asData (s : bvs) (filler : list N) : option (list N) :=
+  if negb (bsize s mod 8 =? 0) then None
+  else Some (map (fun j =>
+                    let def := getByte (plane s DEFINED) j in
+                    let f := match filler with
+                             | [] => 88
+                             | _ => nth (N.to_nat (j mod N.of_nat (length filler))) filler 0
+                             end in
+                    N.lor (N.land (getByte (plane s VALUE) j) def) (N.land f (N.ldiff 255 def)))
+                 (nrange 0 (bsize s / 8))).
+
+(* parseBitVector(uint64_t value, size_t width) *)
+Definition parseBitVectorValue (value width : N) : bvs :=
+  let r := resize (mk_empty 2) width in
+  let r := clearRange r VALUE 0 width in
+  let r := setRange r DEFINED 0 width true in
+  insertNS r VALUE 0 (N.min 64 width) value.
+
+(* createDefaultBitVectorState(bitWidth, size_t value): inserts all 64 bits of value
+   non-straddling at 0 -- asserts nothing about bitWidth >= 64 except through the word lookup *)
+Definition createDefaultValue (bitWidth value : N) : option bvs :=
+  let r := resize (mk_empty 2) bitWidth in
+  let r := setRange r DEFINED 0 bitWidth true in
+  let r := clearRange r VALUE 0 bitWidth in
+  if bitWidth =? 0 then None    (* HCL_ASSERT(start / 64 < m_values[plane].size()) fails *)
+  else Some (insertNS r VALUE 0 64 value).
+
+(* createDefaultBitVectorState(bitWidth, data): DEFINED all set, memcpy of (bitWidth+7)/8 bytes into
+   the VALUE plane ([bytes] must supply at least that many) *)
+Definition createDefaultData (bitWidth : N) (bytes : list N) : bvs :=
+  let r := resize (mk_empty 2) bitWidth in
+  let r := setRange r DEFINED 0 bitWidth true in
+  on_plane r VALUE (fun w =>
+    fold_left (fun w kb => setByte w (fst kb) (snd kb))
+              (combine (nrange 0 ((bitWidth + 7) / 8)) bytes) w).
+
+(* parseBit(char) / parseBit(bool); None = HCL_DESIGNCHECK *)
+Definition parseBitChar (c : ascii) : option bvs :=
+  let n := N_of_ascii c in
+  if (n =? 48) || (n =? 49) || (n =? 120) || (n =? 88) then
+    let r := resize (mk_empty 2) 1 in
+    let r := setb r VALUE 0 (negb (n =? 48)) in
+    Some (setb r DEFINED 0 (negb ((n =? 120) || (n =? 88))))
+  else None.
+Definition parseBitBool (b : bool) : bvs :=
+  let r := resize (mk_empty 2) 1 in
+  setb (setb r VALUE 0 b) DEFINED 0 true.
+
+(* convertToExtended / tryConvertToDefault *)
+Fixpoint convLoop (fuel : nat) (dst : list N) (src : list N) (size offset : N) : list N :=
+  match fuel with
+  | O => dst
+  | S f =>
+    if offset <? size then
+      let chunk := N.min 64 (size - offset) in
+      convLoop f (insertWP dst offset chunk (extractWP src offset chunk)) src size (offset + 64)
+    else dst
+  end.
+Definition convertToExtended (s : bvs) : bvs :=
+  let r := resize (mk_empty 4) (bsize s) in
+  let conv p := convLoop (S (N.to_nat (bsize s))) (plane r p) (plane s p) (bsize s) 0 in
+  {| bsize := bsize s; planes := [conv VALUE; conv DEFINED; plane r DONT_CARE; plane r HIGH_IMPEDANCE] |}.
+Definition tryConvertToDefault (s : bvs) : option bvs :=
+  if negb (forallb (fun off => let c := N.min 64 (bsize s - off) in
+                      (extractW s DONT_CARE off c =? 0) && (extractW s HIGH_IMPEDANCE off c =? 0))
+                   (map (fun k => 64 * k) (nrange 0 ((bsize s + 63) / 64))))
+  then None
+  else
+    let r := resize (mk_empty 2) (bsize s) in
+    let conv p := convLoop (S (N.to_nat (bsize s))) (plane r p) (plane s p) (bsize s) 0 in
+    Some {| bsize := bsize s; planes := [conv VALUE; conv DEFINED] |}.
+
+(* ------------------------------------------------------------------ *)
 (* operation sequences on a small file of containers                  *)
 (* ------------------------------------------------------------------ *)
 
@@ -642,7 +788,18 @@ Inductive op :=
 | OCanBeReplaced (ra rb : nat) (sa sb size : N)
 | OMerge (rd : nat) (sd : N) (rs : nat) (ss size : N)
 | OInsertBig (r : nat) (off size : N) (v : Z)
-| OExtractBig (r : nat) (off size : N).
+| OExtractBig (r : nat) (off size : N)
+(* whole-object operations and views *)
+| OAssign (rd rs : nat)                      (* regs[rd] = regs[rs]              *)
+| OSwap (ra rb : nat)                        (* std::swap(regs[ra], regs[rb])    *)
+| OMove (rd rs : nat)                        (* regs[rd] = std::move(regs[rs]); regs[rs] = {} *)
+| OClearResize (r : nat) (n : N)             (* clear(); resize(n)               *)
+| OHead (r p : nat)
+| OAllDefNS (r : nat) (start size : N)
+| OAsBytes (r p : nat)
+| OEqBytes (r : nat) (bytes : list N)        (* -1 = exception (wrong size)      *)
+| OIterRead (r p : nat) (off size : N)
+| OIterWrite (r p : nat) (off size v : N).
 
 Definition regs := list bvs.
 Definition getr (np : nat) (rs : regs) (r : nat) : bvs := nth r rs (mk_empty np).
@@ -681,6 +838,16 @@ Definition step (np : nat) (o : op) (rs : regs) : regs * option Z :=
   | OMerge rd sd r ss size => (upd_nat rs rd (mergeUndefinedSelection (g rd) sd (g r) ss size), None)
   | OInsertBig r off size v => (upd_nat rs r (insertBigInt (g r) off size v), None)
   | OExtractBig r off size => (rs, Some (extractBigInt (g r) off size))
+  | OAssign rd r => (upd_nat rs rd (g r), None)
+  | OSwap ra rb => (upd_nat (upd_nat rs ra (g rb)) rb (g ra), None)
+  | OMove rd r => (upd_nat (upd_nat rs rd (g r)) r (mk_empty np), None)
+  | OClearResize r n => (upd_nat rs r (clearResize (g r) n), None)
+  | OHead r p => (rs, Some (Z.of_N (head (g r) p)))
+  | OAllDefNS r start size => (rs, b2z (allDefinedNS (g r) start size))
+  | OAsBytes r p => (rs, Some (Z.of_N (bytesToN (asBytes (g r) p))))
+  | OEqBytes r bytes => (rs, match eqBytes (g r) bytes with Some b => b2z b | None => Some (-1)%Z end)
+  | OIterRead r p off size => (rs, Some (Z.of_N (iterRead (g r) p off size)))
+  | OIterWrite r p off size v => (upd_nat rs r (iterWrite (g r) p off size v), None)
   end.
 
 Definition run (np : nat) (ops : list op) (rs : regs) : regs * list (option Z) :=
